@@ -2220,8 +2220,8 @@ struct Interp
       auto src = get(K, idx(w[2]));
       if (!dst || !src)
         return "dead";
-      // dst == src: self-move-assignment (conn_.disconnect(); conn_ = std::exchange(sc.conn_, connection());)
-      // is performed like any other: the held slot is disconnected and the object stays usable
+      if (dst == src)
+        return "self"; // self-move-assignment is outside C17's histories
       *dst = std::move(*src);
       return "ok";
     }
